@@ -407,6 +407,15 @@ def after_report(ex, idx, op, obs):
     if ex.wl not in ("C09",):
         return
     owner = ex.cache_owner
+    if op["op"] == "report" and obs.get("diff_used") and owner == "own":
+        # the comparison baseline is a report too: one written by another version must be refused
+        if ex.baseline_version != running_version():
+            if not (obs["outcome"] == "exit" and obs.get("code") == 1):
+                ex.add(violation("C09", "other_version_baseline_refused", "report --diff with a baseline of version %r ended %s %s"
+                                 % (ex.baseline_version, obs["outcome"], obs.get("code", obs.get("exc", ""))), idx, obs))
+            ex.probe("c09_foreign_baseline")
+            return
+        ex.probe("c09_own_baseline")
     if owner == "foreign":
         if not (obs["outcome"] == "exit" and obs.get("code") == 1):
             ex.add(violation("C09", "other_version_refused", "%s of a cache written by another version ended %s %s"
